@@ -45,7 +45,11 @@ for d in sorted(glob.glob('/verif/seeded/*/meta.json')):
     tests = tests.split(' in ')[0]
     verdict = ('caught by ' + ', '.join(caught)) if caught else 'MISSED'
     if m.get('status'):
-        verdict = 'not applicable on the current tree (%s)' % m['status'].split(':')[0].lower()
+        st = m['status'].split(':')[0]
+        if st.upper().startswith('OUTSIDE'):
+            verdict = '%s — %s' % (st.lower(), verdict if caught else 'evaluated under the property it belongs to')
+        else:
+            verdict = 'not applicable on the current tree (%s)' % st.lower()
     if DESIGN:
         why = ''
         for p in caught:
